@@ -12,6 +12,7 @@ MODULES = [
     'contracts.config',
     'contracts.helpers',
     'contracts.runinfo',
+    'contracts.paramobj',
 ]
 
 
